@@ -59,10 +59,14 @@ def nf(case, v):
     depend on what the value is.  The model keeps the integer; both sides are compared through `canon`."""
     if case.get("nonfinite") and abs(v) < PRED_BASE // 2 and int(v) == v and int(v) % 5 == 0:
         return (INF, -INF, float("nan"))[(int(v) // 5) % 3]
+    if case.get("intvals") and abs(v) < PRED_BASE // 2 and int(v) == v:
+        return 2 ** 60 + int(v)       # an exact integer cost that no double represents: "returned unchanged" means unchanged
     return float(v)
 
 
 def canon(v):
+    if isinstance(v, int) and not isinstance(v, bool) and abs(v) >= 2 ** 53:
+        return v
     return "nan" if v != v else float(v)
 
 
@@ -141,6 +145,7 @@ def run_impl(case):
             sur.train = counting
         job = Job(problem)
         returned = []
+        keep = (lambda t: t if isinstance(t, int) and not isinstance(t, bool) else float(t)) if case.get("intvals") else float
         try:
             for i, (x, _) in enumerate(case["requests"]):
                 state["i"] = i
@@ -151,13 +156,13 @@ def run_impl(case):
                     ind.costs = [float(STALE + i)] * len(case["obj"])
                 if case["via_job"]:
                     job.evaluate(ind)
-                    returned.append([float(t) for t in ind.costs])
+                    returned.append([keep(t) for t in ind.costs])
                 else:
-                    returned.append([float(t) for t in sur.evaluate(ind)])
+                    returned.append([keep(t) for t in sur.evaluate(ind)])
         except ZeroDivisionError:
             return {"raised": "ZeroDivisionError"}
         return {"returned": returned, "eval": sur.eval_counter, "pred": sur.predict_counter, "fits": list(fits),
-                "xs": [[float(t) for t in v] for v in sur.x_data], "ys": [[float(t) for t in v] for v in sur.y_data],
+                "xs": [[float(t) for t in v] for v in sur.x_data], "ys": [[keep(t) for t in v] for v in sur.y_data],
                 "fcalls": fcalls, "trained": bool(sur.trained), "effective_train_step": getattr(sur, "train_step", None)}
     finally:
         try:
@@ -305,6 +310,8 @@ def gen_case(rng, quick, default_regressor=False):
         case["eval_stats_off"] = True
     if rng.random() < 0.2:
         case["stale_costs"] = True
+    if rng.random() < 0.15 and not case.get("nonfinite") and not case["via_job"]:
+        case["intvals"] = True
     if wrapper != "eval" and rng.random() < 0.25:
         k = rng.randint(1, 7)
         case["preload"] = [([rng.randint(-50, 50) for _ in range(n)], [rng.randint(-99, 99) for _ in range(nobj)]) for _ in range(k)]
@@ -313,6 +320,7 @@ def gen_case(rng, quick, default_regressor=False):
         case.pop("nonfinite", None)
         case.pop("stale_costs", None)
         case.pop("eval_stats_off", None)       # (the wrapper is re-drawn below and may be the scikit one)
+        case.pop("intvals", None)
         # the constructors' own regressors (GaussianProcessRegressor / KRG): few, distinct points, rare retraining
         case["wrapper"] = rng.choice(["scikit", "smt"])
         case["n"] = n = 1
